@@ -84,8 +84,8 @@ func UnitFromProto(protoUnit *pb.PropellerUnit) (Unit, error) {
 	// todo(rdr): What other validations should I do?
 	// todo(rdr): Should I do these validations here?
 	shardLen := len(shards[0])
-	for i := range shards[1:] {
-		if len(shards[i]) != shardLen {
+	for _, shard := range shards[1:] {
+		if len(shard) != shardLen {
 			return Unit{}, errors.New("unit has shards of different length")
 		}
 	}
